@@ -488,6 +488,11 @@ class FunctionalLeftScalarMult(Functional, OperatorLeftScalarMult):
 
         ``Functional.__rmul__`` takes care of the case scalar = 0.
         """
+        if self.functional.is_linear:
+            # A linear functional stays convex for every nonzero scalar,
+            # and ``scalar * f == f * scalar``
+            return self.functional.convex_conj * (1.0 / self.scalar)
+
         if self.scalar <= 0:
             raise ValueError('scaling with nonpositive values have no convex '
                              'conjugate. Current value: {}.'
